@@ -232,6 +232,15 @@ class Gen:
             rec["ghi"] = not base.get("ghi", False)  # feature mismatch on purpose
         return rec
 
+    def _plain_reporting(self, base, span):
+        rec = self._reporting(base, span=span, obs="present", tgap=0)
+        rec.pop("dup", None)
+        rec.pop("feed", None)
+        if base["fam"] == "hourly":
+            rec["ghi"] = bool(base.get("ghi"))
+        rec["tz"] = base["tz"]
+        return rec
+
     def _profile(self, fam):
         pairs = PROFILE_WEIGHTS[fam]
         if not self.swarm["dev_profiles"]:
@@ -453,6 +462,14 @@ class Gen:
                 mo = self.fit(mfam, dbo, profile=self.models[m0]["profile"], ignore=True, allow_abort=False)
                 self.predict(mo, dbo, ignore=True)
                 self.predict(m0, ds[0], ignore=True)
+                if ob.get("src") != "sample" and base0.get("src") != "sample" and mfam != "caltrack":
+                    # both meters' full reporting year (gapless, same shape), first the one, then the other: in look-alike
+                    # zones the two frames begin and end at the same instants and have the same number of rows
+                    d_f0 = self.make_data(self._plain_reporting(base0, "full"))
+                    d_fo = self.make_data(self._plain_reporting(ob, "full"))
+                    self.predict(m0, d_f0, ignore=True)
+                    self.predict(mo, d_fo, ignore=True)
+                    self.predict(m0, d_f0, ignore=True)
                 bs0 = self._data_for(m0, "baseline")
                 if bs0:
                     self.predict(m0, bs0[0], ignore=True)
